@@ -105,6 +105,17 @@ impl Check for C06Noise {
                 noise.truncate(values.len() + 1);
                 Case06 { values, noise, policy, pipeline }
             })
+            // one case in six ends with a value that is cut off by the end of the input (an open
+            // array, object, string or literal): bytes that are not part of any value either
+            .prop_flat_map(|c| (Just(c), prop::option::weighted(0.17, prop::sample::select(vec!["[1, 2", "{\"a\":", "[1,", "{\"a\"", "\"abc", "[[", "{\"a\":{\"b\":[", "[\"x\", {\"k\": [true"]))))
+            .prop_map(|(mut c, tail)| {
+                if let Some(t) = tail {
+                    if let Some(last) = c.noise.last_mut() {
+                        last.push(BytesS(t.as_bytes().to_vec()));
+                    }
+                }
+                c
+            })
             .boxed()
     }
     fn check(&self, case: &Case06) -> CaseResult {
